@@ -1317,3 +1317,55 @@ Proof.
   intros H1 H2 H3. rewrite forallb_forall in G. specialize (G _ H1).
   rewrite forallb_forall in G. specialize (G _ H2). rewrite forallb_forall in G. exact (G _ H3).
 Qed.
+
+(* ================================================================================================ *)
+(* the padded product-state tensors contract to the product state, whatever the padding              *)
+(* ================================================================================================ *)
+Lemma fold_zero (f : nat -> Z) l : (forall k, In k l -> f k = 0%Z) ->
+  fold_right (fun k acc => (f k + acc)%Z) 0%Z l = 0%Z.
+Proof.
+  induction l as [|a l IH]; intros H; simpl; auto.
+  rewrite (H a) by (simpl; auto). rewrite IH; [reflexivity|]. intros k Hk. apply H. simpl; auto.
+Qed.
+
+Lemma zsum_delta d (g : nat -> Z) : 1 <= d -> zsum d (fun r => (delta r 0 * g r)%Z) = g 0.
+Proof.
+  intros H. unfold zsum. destruct d as [|d]; [lia|]. cbn [seq fold_right].
+  rewrite fold_zero.
+  - replace (delta 0 0) with 1%Z by reflexivity. ring.
+  - intros k Hk. apply in_seq in Hk. unfold delta. destruct (Nat.eqb_spec k 0); [lia|]. ring.
+Qed.
+
+Lemma zsum_ext d (f g : nat -> Z) : (forall k, f k = g k) -> zsum d f = zsum d g.
+Proof. intros H. unfold zsum. induction (seq 0 d); simpl; auto. rewrite H, IHl. reflexivity. Qed.
+
+Definition all_sv (sv : nat) (ps : list nat) : Z := if forallb (fun p => p =? sv) ps then 1%Z else 0%Z.
+
+Lemma all_sv_cons sv p ps : all_sv sv (p :: ps) = (delta p sv * all_sv sv ps)%Z.
+Proof. unfold all_sv, delta. simpl. destruct (p =? sv); destruct (forallb _ ps); reflexivity. Qed.
+
+Lemma chain_val_spec sv : forall bonds ps l, Forall (fun d => 1 <= d) bonds -> length ps = S (length bonds) ->
+  chain_val sv bonds ps l = (delta l 0 * all_sv sv ps)%Z.
+Proof.
+  induction bonds as [|d bonds IH]; intros ps l Hb Hl.
+  - destruct ps as [|p [|]]; simpl in Hl; try discriminate. simpl. unfold cps_end.
+    rewrite all_sv_cons. replace (all_sv sv []) with 1%Z by reflexivity. ring.
+  - destruct ps as [|p ps]; simpl in Hl; [discriminate|]. injection Hl as Hl.
+    inversion Hb as [|? ? Hd Hb']; subst. cbn [chain_val].
+    rewrite (zsum_ext d _ (fun r => (delta r 0 * (delta l 0 * delta p sv * (delta r 0 * all_sv sv ps)))%Z)).
+    + rewrite zsum_delta by auto. rewrite all_sv_cons. replace (delta 0 0) with 1%Z by reflexivity. ring.
+    + intros k. rewrite IH by auto. unfold cps_mid. ring.
+Qed.
+
+(* contraction of constant_product_state's tensors = the product basis state, for all bond paddings >= 1 *)
+Theorem mps_product_state_value sv bonds ps :
+  bonds <> [] -> Forall (fun d => 1 <= d) bonds -> length ps = S (length bonds) ->
+  mps_val sv bonds ps = all_sv sv ps.
+Proof.
+  intros Hne Hb Hl. destruct bonds as [|d bonds]; [contradiction|].
+  destruct ps as [|p ps]; simpl in Hl; [discriminate|]. injection Hl as Hl.
+  inversion Hb as [|? ? Hd Hb']; subst. unfold mps_val.
+  rewrite (zsum_ext d _ (fun r => (delta r 0 * (delta p sv * (delta r 0 * all_sv sv ps)))%Z)).
+  - rewrite zsum_delta by auto. rewrite all_sv_cons. replace (delta 0 0) with 1%Z by reflexivity. ring.
+  - intros k. rewrite chain_val_spec by auto. unfold cps_end. ring.
+Qed.
